@@ -65,6 +65,18 @@ func (r *rng) below(n int) int { return int(r.next() % uint64(n)) }
 type graph struct {
 	roots []int
 	loads [][]int
+	// modules of a project that cannot be fetched (`example.com/x//lib:m<i>.dawn`): their environment cannot be set
+	// up, so they fail before executing anything; they have no file and load nothing
+	broken []int
+}
+
+func (g *graph) isBroken(m int) bool {
+	for _, b := range g.broken {
+		if b == m {
+			return true
+		}
+	}
+	return false
 }
 
 func (g *graph) String() string {
@@ -83,12 +95,20 @@ func (g *graph) String() string {
 		}
 		ls = append(ls, strings.Join(xs, ","))
 	}
-	return strings.Join(rs, ",") + "/" + strings.Join(ls, ";")
+	out := strings.Join(rs, ",") + "/" + strings.Join(ls, ";")
+	if len(g.broken) > 0 {
+		var bs []string
+		for _, b := range g.broken {
+			bs = append(bs, strconv.Itoa(b))
+		}
+		out += "/" + strings.Join(bs, ",")
+	}
+	return out
 }
 
 func parseGraph(s string) (*graph, error) {
 	parts := strings.Split(s, "/")
-	if len(parts) != 2 {
+	if len(parts) != 2 && len(parts) != 3 {
 		return nil, fmt.Errorf("bad graph %q", s)
 	}
 	nums := func(s string) ([]int, error) {
@@ -116,6 +136,16 @@ func parseGraph(s string) (*graph, error) {
 			return nil, err
 		}
 		g.loads = append(g.loads, xs)
+	}
+	if len(parts) == 3 {
+		if g.broken, err = nums(parts[2]); err != nil {
+			return nil, err
+		}
+		for _, b := range g.broken {
+			if b < len(g.roots) || b >= len(g.loads) || len(g.loads[b]) != 0 {
+				return nil, fmt.Errorf("broken module %d must be a helper without loads", b)
+			}
+		}
 	}
 	for i, r := range g.roots {
 		if r != i {
@@ -147,10 +177,24 @@ func (g *graph) file(m int) string {
 }
 
 func (g *graph) label(m int) string {
-	return (&label.Label{Kind: "module", Package: g.pkg(m), Name: g.file(m)}).String()
+	l := &label.Label{Kind: "module", Package: g.pkg(m), Name: g.file(m)}
+	if g.isBroken(m) {
+		l.Project = "example.com/x"
+	}
+	return l.String()
 }
 
 // reachable modules and whether the reachable part has a cycle (the judge's own oracle)
+func (g *graph) brokenReachable() bool {
+	reach, _ := g.analyse()
+	for _, b := range g.broken {
+		if reach[b] {
+			return true
+		}
+	}
+	return false
+}
+
 func (g *graph) analyse() (reach []bool, cyclic bool) {
 	reach = make([]bool, len(g.loads))
 	color := make([]int, len(g.loads))
@@ -180,10 +224,15 @@ func (g *graph) write(root string) error {
 		return err
 	}
 	for m := range g.loads {
+		if g.isBroken(m) {
+			continue
+		}
 		var b strings.Builder
 		for i, d := range g.loads[m] {
 			ref := g.pkg(d) + ":" + g.file(d)
-			if g.pkg(d) == g.pkg(m) && (m+i)%2 == 0 {
+			if g.isBroken(d) {
+				ref = "example.com/x" + ref
+			} else if g.pkg(d) == g.pkg(m) && (m+i)%2 == 0 {
 				ref = ":" + g.file(d) // relative form
 			}
 			fmt.Fprintf(&b, "load(%q, a%d=\"x%d\")\nslow()\n", ref, i, d)
@@ -285,6 +334,27 @@ func genGraph(r *rng, kind string) *graph {
 			g.loads[k-1] = append(g.loads[k-1], 0) // closes a cycle through the BUILD files when k = 2
 		}
 		return g
+	case "foreign": // several modules load the same module of a project that cannot be fetched
+		if k < 2 {
+			k = 2
+		}
+		n := k + 2 + r.below(2)
+		g := mk(k, n)
+		bad := n - 1
+		g.broken = []int{bad}
+		for i := 0; i < k; i++ {
+			g.loads[i] = []int{bad}
+			if r.below(2) == 0 {
+				g.loads[i] = []int{k, bad}
+			}
+		}
+		if n-k == 3 {
+			g.loads[k] = []int{k + 1}
+			g.loads[k+1] = []int{bad}
+		} else if r.below(2) == 0 {
+			g.loads[k] = []int{bad}
+		}
+		return g
 	case "dag":
 		n := k + 1 + r.below(5)
 		g := mk(k, n)
@@ -319,7 +389,10 @@ func genGraph(r *rng, kind string) *graph {
 	}
 }
 
-var kinds = []string{"chain", "diamond", "shared", "cycle", "self", "crossroot", "dag", "random", "shared", "cycle"}
+// set once the Lean model covers modules whose environment cannot be set up (graphs with a third component)
+const modelHasBroken = false
+
+var kinds = []string{"chain", "diamond", "shared", "cycle", "self", "crossroot", "dag", "random", "shared", "cycle", "foreign"}
 
 // ---------------------------------------------------------------- events (the judge's own count of ModuleLoading)
 type events struct {
@@ -526,6 +599,11 @@ func hook(name string, arg any) {
 		r.mu.Lock()
 		r.emit(t, "end")
 		t.state = "done"
+		for m, h := range r.held { // wait's deferred Unlock has run
+			if h == t.id {
+				delete(r.held, m)
+			}
+		}
 		r.mu.Unlock()
 		if r.controlled {
 			r.msgs <- t
@@ -840,6 +918,15 @@ func judge(g *graph, res *lresult, mode string) {
 			violation("executed-twice", g, res, mode, fmt.Sprintf("%s: %d ModuleLoading events", g.label(m), n))
 		}
 	}
+	if g.brokenReachable() {
+		// some reachable module cannot be fetched: Load must fail (with that error, or with the cyclic one if there is
+		// a cycle as well) - and must return
+		stats["unfetchable_graph_runs"]++
+		if res.class == "ok" || (res.class == "cyclic" && !cyclic) {
+			violation("unfetchable-module-not-reported", g, res, mode, fmt.Sprintf("Load returned class %s %q", res.class, res.errText))
+		}
+		return
+	}
 	if cyclic {
 		stats["cyclic_graph_runs"]++
 		if res.class != "cyclic" {
@@ -873,7 +960,7 @@ func judge(g *graph, res *lresult, mode string) {
 }
 
 func emitTrace(stream, ver string, g *graph, res *lresult) {
-	if res.outcome == "HANG" {
+	if res.outcome == "HANG" || res.outcome == "LIVELOCK" || (len(g.broken) > 0 && !modelHasBroken) {
 		return
 	}
 	tr := "-"
@@ -976,13 +1063,27 @@ type job struct {
 	FreeTimeoutMs int `json:"free_timeout_ms,omitempty"`
 }
 
+// the generated trees live on a memory file system when there is one (every Load writes its index and temp dir)
+func tempBase() string {
+	if os.Getenv("TMPDIR") == "" {
+		if st, err := os.Stat("/dev/shm"); err == nil && st.IsDir() {
+			if f, err := os.CreateTemp("/dev/shm", "verif-probe"); err == nil {
+				f.Close()
+				os.Remove(f.Name())
+				return "/dev/shm"
+			}
+		}
+	}
+	return ""
+}
+
 func runJob(j job, idx int) {
 	g, err := parseGraph(j.Graph)
 	if err != nil {
 		fmt.Fprintln(os.Stderr, err)
 		return
 	}
-	root, err := os.MkdirTemp("", "verif-loader")
+	root, err := os.MkdirTemp(tempBase(), "verif-loader")
 	if err != nil {
 		panic(err)
 	}
@@ -1223,7 +1324,7 @@ func main() {
 	// 2. small graphs: many random and PCT schedules each
 	per := 60
 	if thorough {
-		per = 1500
+		per = 600
 	}
 	for _, s := range small {
 		jobs = append(jobs, job{Graph: s, Mode: "random", N: per, Seed: r.next(), Ver: *ver, Trace: 3})
